@@ -6,6 +6,7 @@ package main
 
 import (
 	"fmt"
+	"strings"
 	"syscall"
 	"time"
 
@@ -236,6 +237,24 @@ var scenarios = []schedrig.Scenario{
 	{Name: "close-with-full-queue", Queue: 2, Body: func(w *schedrig.World) {
 		schedrig.TypeBytes(w, "keys", "abcdefg")
 		w.Until(func() bool { return w.Seen("key:a") })
+		w.Close()
+	}},
+	{Name: "mixed-input-into-full-queue", Queue: 2, Body: func(w *schedrig.World) {
+		// every kind of event the input handler posts, in one read, while the main goroutine is busy drawing and the
+		// queue holds two: nothing may be dropped or reordered (a lost button release leaves a drag hanging)
+		schedrig.TypeBytes(w, "burst", "\x1b[<0;1;1M\x1b[<32;2;1M\x1b[<0;2;1m\x1b[I\x1b[200~p\x1b[201~\x1b[O\x1b[?997;1nq")
+		w.Draw()
+		w.Until(func() bool { return w.Seen("key:q") })
+		var in []string
+		for _, g := range w.Got {
+			if g != "redraw" && !strings.HasPrefix(g, "resize:") && g != "syncfunc" {
+				in = append(in, g)
+			}
+		}
+		want := []string{"mouse:0,0,b0,e0", "mouse:1,0,b0,e3", "mouse:1,0,b0,e2", "focus-in", "paste-start", "key:p", "paste-end", "focus-out", "color-theme:1", "key:q"}
+		if fmt.Sprint(in) != fmt.Sprint(want) {
+			w.Failf("lost-event", "terminal input in one read: delivered %v, want %v", in, want)
+		}
 		w.Close()
 	}},
 	{Name: "suspend-with-full-queue", Queue: 2, Body: func(w *schedrig.World) {
